@@ -1860,7 +1860,7 @@ class PseudoNetCDFFile(PseudoNetCDFSelfReg, object):
                             for yyyy, day in zip(yyyys, days)])
             if bounds:
                 if hasattr(self, 'TSTEP'):
-                    tstep = getattr(self, 'TSTEP')
+                    tstep = int(getattr(self, 'TSTEP'))
                     sh = tstep // 10000 * 3600
                     sm = tstep % 10000 // 100 * 60
                     ss = tstep % 100
